@@ -1,6 +1,8 @@
 package main
 
 import (
+	crand "crypto/rand"
+	"crypto/ed25519"
 	"time"
 	"bytes"
 	"crypto"
@@ -42,7 +44,11 @@ func keyID(pub *rsa.PublicKey) string {
 }
 
 func certArg(c *x509.Certificate) string {
-	pub, _ := c.PublicKey.(*rsa.PublicKey)
+	pub, ok := c.PublicKey.(*rsa.PublicKey)
+	if !ok {
+		// not an RSA key: no RSA signature is valid under it (key id 0 is unknown to the oracle)
+		return fmt.Sprintf("%s:%s:0", hx(c.RawIssuer), c.SerialNumber.String())
+	}
 	return fmt.Sprintf("%s:%s:%s", hx(c.RawIssuer), c.SerialNumber.String(), keyID(pub))
 }
 
@@ -225,6 +231,10 @@ func librarySeeds(rng *rand.Rand, n int) []p7Seed {
 			// issued by a CA: the signer entry names the issuer, which is not the subject
 			cert = leafCert(key, fmt.Sprintf("lib leaf %d", i), int64(7000+i))
 		}
+		if i%6 == 4 {
+			// the certificate itself carries a sha384WithRSA signature (the SignedData is still SHA-256)
+			cert = mintCertAlg(key, pkix.Name{CommonName: fmt.Sprintf("lib signer %d (sha384 certificate)", i)}, big.NewInt(int64(9000+i)), x509.SHA384WithRSA)
+		}
 		content := randBytes(rng, 1+rng.Intn(200))
 		switch i % 3 {
 		case 0: // detached, data
@@ -342,6 +352,16 @@ func otherCerts(s p7Seed, rng *rand.Rand) map[string]*x509.Certificate {
 		in.FillFromRDNSequence(&pkix.RDNSequence{})
 		in = s.cert.Issuer
 		out["same-key-subject-is-signers-issuer"] = mintLeaf(s.key, pkix.Name{CommonName: "another CA"}, in, s.cert.SerialNumber)
+	}
+	// same issuer and serial, a key that is not RSA at all
+	if _, edk, err := ed25519.GenerateKey(crand.Reader); err == nil {
+		tmpl := x509.Certificate{SerialNumber: s.cert.SerialNumber, RawSubject: s.cert.RawIssuer,
+			NotBefore: time.Now().Add(-time.Hour), NotAfter: time.Now().Add(24 * time.Hour)}
+		if der, err := x509.CreateCertificate(crand.Reader, &tmpl, &tmpl, edk.Public(), edk); err == nil {
+			if ec, err := x509.ParseCertificate(der); err == nil {
+				out["same-issuer-serial-ed25519-key"] = ec
+			}
+		}
 	}
 	out["unrelated"] = simpleCert(k2, "unrelated", 999)
 	return out
